@@ -28,14 +28,22 @@ func c04DecodeWrites(c *Ctx, p *core.Prog) {
 		if fn.Parent() != nil {
 			continue
 		}
-		// local buffers (allocated here or obtained from a pool helper)
+		// local buffers (allocated here or obtained from a pool helper), or a buffer kept in a field of the tokenizer
+		// (every &t.buf is a separate FieldAddr instruction: the first one stands for the field)
 		var bufs []ssa.Value
+		fieldSeen := map[string]bool{}
 		for _, b := range fn.Blocks {
 			for _, in := range b.Instrs {
 				if v, ok := in.(ssa.Value); ok && isBufType(v) {
-					switch in.(type) {
+					switch x := in.(type) {
 					case *ssa.Alloc, *ssa.Call:
 						bufs = append(bufs, v)
+					case *ssa.FieldAddr:
+						k := fieldKey(x.X, x.Field)
+						if !fieldSeen[k] {
+							fieldSeen[k] = true
+							bufs = append(bufs, v)
+						}
 					}
 				}
 			}
@@ -50,7 +58,13 @@ func c04DecodeWrites(c *Ctx, p *core.Prog) {
 					continue
 				}
 				for i, a := range ci.Common().Args {
-					if a != buf {
+					same := a == buf
+					if fa, ok := a.(*ssa.FieldAddr); ok && !same {
+						if fb, ok := buf.(*ssa.FieldAddr); ok && fieldKey(fa.X, fa.Field) == fieldKey(fb.X, fb.Field) {
+							same = true
+						}
+					}
+					if !same {
 						continue
 					}
 					f := ci.Common().StaticCallee()
